@@ -170,7 +170,9 @@ def check(report, tier, seed):
             deep += [("sum%d" % n_, "wire w : 64; w = " + "pc + " * n_ + "1;\npc = 0; Stat = STAT_AOK;\n"),
                      ("constsum%d" % n_, "const K = " + "1 + " * n_ + "1;\npc = 0; Stat = STAT_AOK;\n"),
                      ("paren%d" % n_, "const K = " + "(" * n_ + "1" + ")" * n_ + ";\npc = 0; Stat = STAT_AOK;\n"),
-                     ("slice%d" % n_, "wire w : 1; w = (pc" + "[0..64]" * n_ + " == 0);\npc = 0; Stat = STAT_AOK;\n"),
+                     # (a syntax error followed by tens of thousands of tokens: the parser's recovery is quadratic in them,
+                     #  30 s for 60 000 repetitions on an idle machine - kept below that, the time limit is about hanging)
+                     ("slice%d" % min(n_, 20000), "wire w : 1; w = (pc" + "[0..64]" * min(n_, 20000) + " == 0);\npc = 0; Stat = STAT_AOK;\n"),
                      ("andor%d" % n_, "wire w : 1; w = " + "(pc == 0) && " * n_ + "1;\npc = 0; Stat = STAT_AOK;\n")]
         for n_ in ([1500] if tier == "quick" else [1500, 6000]):
             deep += [("mux%d" % n_, "const K = " + "[ 1 : " * n_ + "1" + "; ]" * n_ + ";\npc = 0; Stat = STAT_AOK;\n"),
@@ -182,9 +184,9 @@ def check(report, tier, seed):
             with open(p, "w") as f:
                 f.write(t)
             try:
-                r = subprocess.run([cli, "--check", p], capture_output=True, timeout=120)
+                r = subprocess.run([cli, "--check", p], capture_output=True, timeout=400)
             except subprocess.TimeoutExpired:
-                report.violation("cli-hang-deep", "hclrs --check did not terminate within 120 s on a valid text nested %s levels deep" % name, {"shape": name, "text_head": t[:120]})
+                report.violation("cli-hang-deep", "hclrs --check did not terminate within 400 s on a valid text nested %s levels deep" % name, {"shape": name, "text_head": t[:120]})
                 continue
             res["deep.exit%d" % r.returncode] += 1
             if not (r.returncode == 0 and b"syntax OK" in r.stdout) and not (r.returncode == 1 and b"error:" in r.stderr):
